@@ -610,7 +610,8 @@ impl Value {
                 let mut max = 0f64;
                 for &n in &arr.data {
                     all_non_neg &= n >= 0.0;
-                    all_int &= n.fract() == 0.0;
+                    // Negative zero has no integer representation
+                    all_int &= n.fract() == 0.0 && !(n == 0.0 && n.is_sign_negative());
                     all_f32 &= (n as f32 as f64).to_bits() == n.to_bits();
                     min = min.min(n);
                     max = max.max(n);
